@@ -407,7 +407,7 @@ FNAMES = ["a.go", "b.go", "c.go", "B.go", "ab.go", "a_b.go", "z.go", "m1.go", "m
 def unit_cases(ctx):
     r = ctx.rng("unit")
     q = ctx.quick
-    n_deps, n_bad, n_read, n_file, n_gls, n_sort = (400, 60, 700, 150, 200, 100) if q else (12000, 1500, 20000, 4000, 6000, 3000)
+    n_deps, n_bad, n_read, n_file, n_gls, n_sort = (400, 60, 700, 150, 200, 100) if q else (8000, 1000, 14000, 3000, 4000, 2000)
     deps = [gen_deps(r) for _ in range(n_deps)] + [gen_deps(r, missing=True) for _ in range(n_bad)]
     reads = [gen_read(r) for _ in range(n_read)]
     files = [gen_file(r, ctx.tables) for _ in range(n_file)]
@@ -876,7 +876,7 @@ def run_trace(cmd, d, native=False):
 
 def programs(ctx):
     r = ctx.rng("programs")
-    n = int(os.environ.get("C10_DEV_PROGRAMS", "0")) or (24 if ctx.quick else 600)
+    n = int(os.environ.get("C10_DEV_PROGRAMS", "0")) or (24 if ctx.quick else 400)
     progs = [gen_program(r, i, small=(i % 4 == 0)) for i in range(n)]
     # the order in which the REAL Sources.Sort puts each package's files
     keys = [(pi, p["idx"]) for pi, pr in enumerate(progs) for p in pr["pkgs"]]
